@@ -7,20 +7,10 @@ BASE_NOTE = ("Trusted: Coq 8.16.1 kernel (+ vm_compute for finite witnesses/Exam
              "context); extraction uses ExtrOcamlBasic only (no Extract Constant / extra Extract Inductive); the "
              "OCaml driver glue, the Python harness (generators, canonicalisers) and the hand-written model's "
              "agreement with /repo, which is re-tested differentially on every run. ")
-CHECKS = {
- "C11": {
-  "text": "Coq theorems (Props/C11.v) over a hand-written model of PositionCodec (Model/Codec.v): for every "
-          "encoding, list of lines and position - exact conversion and round trip on valid positions, clamping past "
-          "end of line / document, argument never modified - proved for all inputs under executable guards that "
-          "exclude exactly the two open findings (utf-8 widths F17, past-EOF unit count F16'), each of which has a "
-          "kernel-checked refutation witness (C11_refuted_*); the executable reference spec_from is proved to be "
-          "the function the clauses describe. Model tied to /repo on every run by a differential run over every "
-          "string <= 3 (thorough 5) on the class alphabet x every position x 3 encodings, per-character widths "
-          "(thorough: all 1 112 064 scalar values) against str.encode, and TextDocument.lines against lsp_lines.",
-  "note": "Modelled not verified: str.replace/rstrip/slicing, RE_LINE.findall, ord(). Negative positions are outside.",
-  "technique": "induction over the line (loop invariant) + differential correspondence with extracted model",
-  "ref": "DESIGN.md section 5 C11"},
-}
+CHECKS = {}
+for _f in sorted(os.listdir(os.path.join(ROOT, "harness", "manifest.d"))):
+    if _f.endswith(".json"):
+        CHECKS[_f[:-5]] = json.load(open(os.path.join(ROOT, "harness", "manifest.d", _f)))
 def main():
     checks = []
     for pid in ALL:
